@@ -12,6 +12,7 @@ import (
 	"os"
 	"os/exec"
 	"strings"
+	"time"
 	"unicode"
 
 	"github.com/hedzr/is/term/color"
@@ -159,6 +160,21 @@ func runC06(r *run) {
 			}
 			r.emit(fmt.Sprintf("C17 reg %d %s %s %s %s %s %s %s %d %d 12 0", v, hxs(title), hxs(tags[0]), hxs(tags[1]), hxs(tags[2]), hxs(tags[3]), hxs(tags[4]), hxs(tags[5]), clr, bg), "ok")
 			c.lvl = v
+		}
+		if g.chance(1, 7) {
+			// a top-level attribute named like the reserved field and holding a time.Time, half of the time as the
+			// last key in sort order: nothing of it may be left behind for the next record
+			t := time.Unix(int64(g.intn(2000000000)), int64(g.intn(1000000))*1000)
+			if g.chance(1, 2) {
+				var keep []gattr
+				for _, a := range c.attrs {
+					if a.key < "time" {
+						keep = append(keep, a)
+					}
+				}
+				c.attrs = keep
+			}
+			c.attrs = append(c.attrs, gattr{key: "time", val: c09TimeAttr(t)})
 		}
 		if g.chance(1, 8) {
 			// colors of a level changed at run time, including pairs without a foreground or without a background
